@@ -1,6 +1,7 @@
 import IstioModel.Common.Wire
 import IstioModel.C16.Spec
 import IstioModel.C16.Discipline
+import IstioModel.C16.StaticModel
 
 /-!
 Line-protocol driver for C16 (streams `krt`, `krtf6`).  Input = the *trace* written by
@@ -125,6 +126,12 @@ structure DState where
   dsubs   : AMap FinMap := []
   /-- subscribers of the primary collection whose handler was unregistered: the contents at that moment -/
   pfrozen : AMap FinMap := []
+  /-- the runtime model of the primary static collection (StaticModel.lean), stepped with every `p.*` op; per
+      subscriber of the primary collection: where the model's stream was when it registered, whether it got the
+      existing state, that state, and where the stream was when it was unregistered -/
+  pm      : SSys := {}
+  ppos    : AMap (Nat × Bool × FinMap) := []
+  pend    : AMap Nat := []
 
 /-- another current input claims `k` -/
 def currentByOther (T : Transform) (prim : List Obj) (p k : Key) : Bool :=
@@ -253,7 +260,7 @@ def singletonInput : Obj :=
   { ns := "n1", name := "s", labels := [("l1", "1")], sel := [("l1", "1")], outs := ["k1", "k3"],
     ref := "n1/x", val := "v1" }
 
-def stepD (d : DState) (toks : List String) : DState × String :=
+def stepD1 (d : DState) (toks : List String) : DState × String :=
   let primIsSec := d.secmode == "sp" || d.secmode == "ss"
   let d := if d.started && !d.T.fetches.isEmpty &&
       (isSecOp (toks.headD "") || (primIsSec && (toks.headD "").startsWith "p.")) then { d with secDirty := true } else d
@@ -387,5 +394,53 @@ def stepD (d : DState) (toks : List String) : DState × String :=
       | none, _ => "reject:malformed-event"
       | _, none => "unknown-subscriber"))
   | _ => (d, "bad-op")
+
+/-! ### the static collection model executed next to the specification (tie of StaticModel.lean) -/
+
+def insEvK (e : Event) : List Event → List Event
+  | [] => [e]
+  | x :: l => if e.key < x.key then e :: x :: l else x :: insEvK e l
+
+/-- stable by key: the events of one key keep their order (the order across keys of one batch - the Deletes of
+    a Reset, the Adds of a snapshot - is Go map order) -/
+def sortEvK (l : List Event) : List Event := l.foldl (fun acc e => insEvK e acc) []
+
+/-- the primitive changes of one `p.*` op -/
+def staticOps (d : DState) (toks : List String) : List SOp :=
+  match toks with
+  | ["p.set", o] => (parseObj o).toList.map (fun o => SOp.set o.key o.token)
+  | ["p.cset", o] => (parseObj o).toList.map (fun o => SOp.cset o.key o.token)
+  | ["p.del", k] => [SOp.del k]
+  | ["p.delwhere", ns] => (d.pm.vals.filter (fun kv => kv.1.startsWith (ns ++ "/"))).map (fun kv => SOp.del kv.1)
+  | "p.reset" :: os => resetPrims d.pm.vals ((os.filterMap parseObj).map (fun o => (o.key, o.token)))
+  | ["burst", o, n] =>
+    match parseObj o, n.toNat? with
+    | some o, some n =>
+      if !d.started || d.T.byVal then []
+      else (List.range n).map (fun j => let o' := { o with val := "b" ++ toString (j % 2) }; SOp.set o'.key o'.token)
+    | _, _ => []
+  | _ => []
+
+def stepD (d : DState) (toks : List String) : DState × String :=
+  let r := stepD1 d toks
+  let pm := sexec d.pm (staticOps d toks)
+  let d' := { r.1 with pm := pm }
+  match toks with
+  | "case" :: _ => (r.1, r.2)
+  | ["psub", name, kind] =>
+    ({ d' with ppos := AMap.set d'.ppos name (pm.out.length, kind != "nostate", canon pm.vals) }, r.2)
+  | ["punsub", name] =>
+    (if (AMap.lookup d'.pend name).isNone then { d' with pend := AMap.set d'.pend name pm.out.length } else d', r.2)
+  | "pstream" :: name :: evs =>
+    if r.2 != "pstream accept" then (d', r.2) else
+    match parseEvents evs, AMap.lookup d'.ppos name with
+    | some es, some (n0, withState, snap) =>
+      let upto := (AMap.lookup d'.pend name).getD pm.out.length
+      let expected := (if withState then snap.map (fun kv => Event.add kv.1 kv.2) else []) ++
+        (pm.out.take upto).drop n0
+      -- the model is exact: per key the very same events in the very same order
+      if sortEvK expected == sortEvK es then (d', r.2) else (d', "pstream model-differs")
+    | _, _ => (d', r.2)
+  | _ => (d', r.2)
 
 end IstioModel.C16
